@@ -346,7 +346,7 @@ def run_many(case):
 
 @st.composite
 def _hist_case(draw, tier):
-    desc = draw(gen.wellformed(max_targets=6, max_files=9, ticks=3, min_targets=2, shapes=(0, 2, 4), spellings=(0, 1)))
+    desc = draw(gen.wellformed(max_targets=6, max_files=9, ticks=3, min_targets=2, shapes=(0, 2, 4), spellings=(0, 1, 4, 5, 7)))
     step = st.one_of(
         st.tuples(st.just("run")), st.tuples(st.just("start"), st.integers(0, 9)),
         st.tuples(st.just("finish"), st.integers(0, 9), st.sampled_from(["ok", "ok", "exit", "timeout", "oom", "node_fail"])),
